@@ -39,6 +39,7 @@ pub fn answer_kind(kind: &str, lines: &[String], replies: &[String]) -> String {
         "saveload" => oracle_saveload(lines),
         "noslots" => oracle_noslots(lines, replies),
         "stopcont" => oracle_stopcont(lines, replies),
+        "signsym" => oracle_signsym(lines),
         "samesession" => {
             // two sessions (separated by a line "----"), every line typed in turn: the transcripts are equal
             let i = lines.iter().position(|l| l == "----").unwrap_or(lines.len());
@@ -1506,7 +1507,9 @@ pub fn gen_c03<W: Write>(w: &mut W, tier: &str, seed: u64) {
     let busy: Vec<Vec<&str>> = vec![
         vec!["10 LIST", "20 GOTO 10"], vec!["10 LIST:GOTO 10"], vec!["10 LIST 10:LIST:GOTO 10", "20 REM"], vec!["10 PRINT 1:LIST -10", "20 GOTO 10"],
         vec!["10 INPUT A:GOTO 10"], vec!["10 A$=INKEY$:GOTO 10"], vec!["10 TRON:GOTO 10"], vec!["10 FOR I=1 TO 2 STEP 0:NEXT"], vec!["10 WHILE 1:WEND"],
-        vec!["10 GOSUB 10"], vec!["10 DEF FNA(X)=FNA(X)+1:PRINT FNA(1)"], vec!["10 PRINT \"x\";:GOTO 10"], vec!["10 READ A:RESTORE:GOTO 10", "20 DATA 1"],
+        vec!["10 GOSUB 10"], vec!["10 GOTO 20", "20 GOTO 10"], vec!["10 GOTO 20", "20 REM nothing", "30 GOTO 10"], vec!["10 GOSUB 20", "20 GOTO 30", "30 GOTO 20"],
+        vec!["10 ON 1 GOTO 20", "20 ON 1 GOTO 10"], vec!["10 IF 1 THEN 20", "20 IF 1 THEN 10"], vec!["10 GOTO 30", "20 GOTO 10", "30 GOTO 20"],
+        vec!["10 DEF FNA(X)=FNA(X)+1:PRINT FNA(1)"], vec!["10 PRINT \"x\";:GOTO 10"], vec!["10 READ A:RESTORE:GOTO 10", "20 DATA 1"],
     ];
     for prog in &busy {
         for k in [0usize, 1, 2, 3, 4, 5, 7, 10, 50, 333] {
@@ -2161,5 +2164,65 @@ pub fn gen_c13_stop<W: Write>(w: &mut W, tier: &str, seed: u64) {
             v.extend(lines.iter().cloned());
             emit(w, "C13", "stopcont", &v, &p.replies);
         }
+    }
+}
+
+// ---------------------------------------------------------------------------------------------
+// C11: a number's text is its sign followed by the text of its magnitude, and reads back
+
+/// payload: one numeric expression per line (positive values).  For each: STR$(-v) is "-" followed by
+/// STR$(v) without its leading blank (the notation switches at the same magnitude for both signs),
+/// STR$(v) starts with a blank, and VAL(STR$(v)) = v for the value's own type.
+fn oracle_signsym(lines: &[String]) -> String {
+    for e in lines {
+        let mut r = Run::new();
+        // the variable has the value's type, and the text is read back INTO that type
+        let t = if e.contains('#') || e.contains('D') { "#" } else { "!" };
+        r.line(&format!("V{t}={e}:P$=STR$(V{t}):N$=STR$(-V{t}):PRINT P$:PRINT N$:W{t}=VAL(P$):X{t}=VAL(N$):PRINT W{t}=V{t};X{t}=-V{t}", t = t, e = e));
+        let t = r.take();
+        let mut it = t.lines();
+        let (p, n, rt) = (it.next().unwrap_or(""), it.next().unwrap_or(""), it.next().unwrap_or(""));
+        if !p.starts_with(' ') {
+            return fail(format!("{}: the positive number prints as {:?} (no leading blank)", e, p));
+        }
+        if n != format!("-{}", &p[1..]) {
+            return fail(format!("{}: prints as {:?} but its negative as {:?}", e, p, n));
+        }
+        if rt != "-1 -1 " {
+            return fail(format!("{}: {:?} / {:?} do not read back to the value (VAL(STR$(v))=v gave {:?})", e, p, n, rt));
+        }
+    }
+    "ok".into()
+}
+
+pub fn gen_c11_numbers<W: Write>(w: &mut W, tier: &str, seed: u64) {
+    let mut rng = Rng::new(seed ^ 0x11C);
+    let fixed = ["100000000", "1E9", "99999999", "0.12345678", "0.012345678", "1.2345678", "123456.78", "1E-5", "1E7", "1.5E10", "0.5", "1/3", "2/3", "16777216", "3.4E38", "1.2E-38",
+        "12345678901234567#", "0.1234567890123456#", "1D16", "1D17", "123456789012345678#", "1#/3", "2#/3", "1D-5", "1.7D308", "2.3D-308", "0.1#", "1234567.1#", "4294967296#", "1D15+0.5"];
+    let v: Vec<String> = fixed.iter().map(|s| s.to_string()).collect();
+    for chunk in v.chunks(4) {
+        emit(w, "C11", "signsym", chunk, &[]);
+    }
+    // random magnitudes with 1..17 significant digits and exponents across the notation switch
+    let n = if tier == "thorough" { 30_000 } else { 600 };
+    for _ in 0..n {
+        let digits = 1 + rng.below(17);
+        let mut m = String::new();
+        for i in 0..digits {
+            let d = if i == 0 { 1 + rng.below(9) } else { rng.below(10) };
+            m.push(char::from(b'0' + d as u8));
+        }
+        let point = rng.below(digits + 1);
+        let mut lit = format!("{}.{}", &m[..point], &m[point..]);
+        if lit.starts_with('.') {
+            lit = format!("0{}", lit);
+        }
+        if lit.ends_with('.') {
+            lit.pop();
+        }
+        let exp = rng.below(41) as i32 - 20;
+        let dbl = digits > 7 || rng.chance(1, 3);
+        let e = if exp == 0 { if dbl { format!("{}#", lit) } else { lit } } else { format!("{}{}{}", lit, if dbl { "D" } else { "E" }, exp) };
+        emit(w, "C11", "signsym", &[e], &[]);
     }
 }
